@@ -156,10 +156,13 @@ def _mat(d):
 def strat_programs(tier):
     def build(d):
         kinds = st.sampled_from(["linear", "sin", "poly", "time", "maxfilter", "gated", "gated"] + (["secondorder-view", "secondorder-view"] if d >= 2 and d % 2 == 0 else []))
-        return st.builds(lambda nm, kind, A, B, y0, t0, dt, neq, dtv, om: dict(integ=nm, kind=kind, A=A, B=B, y0=y0, t0=t0, dt=dt, neq=neq, dtvec=dtv, omega=om),
+        return st.builds(lambda nm, kind, A, B, y0, t0, dt, neq, dtv, om, alloc: dict(integ=nm, kind=kind, A=A, B=B, y0=y0, t0=t0, dt=dt, neq=neq, dtvec=dtv, omega=om, alloc=alloc),
                          st.sampled_from(explicit_names()), kinds, _mat(d), _mat(d), st.lists(gen.sfloat(-2, 1), min_size=d, max_size=d), st.one_of(st.just(0.0), gen.sfloat(-2, 2)),
                          gen.logf(-3, 0.5), st.sampled_from([1, 2]) if d >= 2 else st.just(1),
-                         st.one_of(st.none(), st.lists(gen.f(1.0, 3.0), min_size=d, max_size=d)), gen.f(0.1, 5.0))
+                         st.one_of(st.none(), st.lists(gen.f(1.0, 3.0), min_size=d, max_size=d)), gen.f(0.1, 5.0),
+                         # how the operator hands its result over: new arrays at every call, or work arrays allocated once (the same list of the same array objects,
+                         # overwritten at every evaluation - a common optimisation of user-written operators)
+                         st.sampled_from(["fresh", "fresh", "workarray"]))
     return st.integers(1, 8).flatmap(build)
 
 
@@ -216,12 +219,21 @@ def check_programs(case):
     if case["kind"] == "gated" and d >= 2:
         neq, split = 2, max(1, d // 2)            # the gated block is the second equation of the field
 
+    work = []
+
     def fun(k, t, data):
         y = np.concatenate([np.asarray(x, dtype=float) for x in data]) if neq == 2 else np.asarray(data[0], dtype=float)
         r = np.asarray(f(t, y), dtype=float)
         if case["kind"] == "secondorder-view":
             return [data[1], r[split:].copy()]        # dx/dt = v returned as the field's own velocity array (shares memory with the field)
-        return [r[:split].copy(), r[split:].copy()] if neq == 2 else [r.copy()]
+        parts = [r[:split], r[split:]] if neq == 2 else [r]
+        if case.get("alloc") == "workarray":
+            if not work:
+                work.extend(np.empty(len(p_)) for p_ in parts)
+            for w_, p_ in zip(work, parts):
+                w_[...] = p_
+            return work
+        return [p_.copy() for p_ in parts]
     disc = FakeDisc(fun)
     if neq == 2:
         if d % 2:
@@ -266,7 +278,8 @@ def check_programs(case):
         require(abs(ti - (t0 + cA[i] * dts)) <= 8 * EPS * (abs(t0) + dts) + 1e-13 * dts, "stage-time", "%s: stage %d evaluated at time %r, abscissa gives %r" % (name, i, ti, t0 + cA[i] * dts))
     target(err, "program-error")
     nontrivial = case["kind"] != "linear" and any(float(np.max(np.abs(k))) > 0 for k in ks)
-    return dict(nontrivial=nontrivial, labels=["integ:" + name, "kind:" + case["kind"], "neq:%d" % neq, "dt:" + ("scalar" if np.ndim(dt) == 0 else "vector")])
+    return dict(nontrivial=nontrivial, labels=["integ:" + name, "kind:" + case["kind"], "neq:%d" % neq, "dt:" + ("scalar" if np.ndim(dt) == 0 else "vector"),
+                                                   "rhs-returns:" + (case.get("alloc", "fresh") if case["kind"] != "secondorder-view" else "view-of-field")])
 
 
 # ---------------------------------------------------------------- SSP behaviour
